@@ -1290,6 +1290,81 @@ impl Exec {
         let exp = self.model.scan(Some(LO_ALL), Some(HI_ALL), s);
         let (a, b) = self.check_scans(&txn, LO_ALL, HI_ALL, &exp, "fresh transaction")?;
         self.stats.reads += a + b;
+        // a cursor that changes direction: where the versions of a key sit (memtables, tables)
+        // must not show in what a seek / next / prev walk lists
+        if !exp.is_empty() {
+            let mut it = match txn.range(LO_ALL, HI_ALL) {
+                Ok(i) => i,
+                Err(e) => viol!(self, "scan", "range failed: {e}"),
+            };
+            let mut prog = String::new();
+            let mut pos: Option<usize>;
+            // start: seek_first, seek_last or seek(some key)
+            match self.rng.below(3) {
+                0 => {
+                    prog.push_str("seek_first");
+                    pos = Some(0);
+                    if let Err(e) = it.seek_first() {
+                        viol!(self, "scan", "seek_first failed: {e}");
+                    }
+                }
+                1 => {
+                    prog.push_str("seek_last");
+                    pos = Some(exp.len() - 1);
+                    if let Err(e) = it.seek_last() {
+                        viol!(self, "scan", "seek_last failed: {e}");
+                    }
+                }
+                _ => {
+                    let k = self.rng.pick(&keys).clone();
+                    prog.push_str(&format!("seek({})", hex(&k)));
+                    pos = exp.iter().position(|e| e.0 >= k);
+                    if let Err(e) = it.seek(&k) {
+                        viol!(self, "scan", "seek failed: {e}");
+                    }
+                }
+            }
+            for step in 0..10 {
+                // compare
+                let got = if it.valid() {
+                    match it.value() {
+                        Ok(v) => Some((it.key().user_key().to_vec(), v)),
+                        Err(e) => viol!(self, "scan", "cursor value failed after {}: {e}", prog),
+                    }
+                } else {
+                    None
+                };
+                let want = pos.map(|p| exp[p].clone());
+                self.stats.reads += 1;
+                if got != want {
+                    viol!(
+                        self,
+                        "zigzag",
+                        "cursor program {} (fresh transaction): cursor at {} but the committed history says {}",
+                        prog,
+                        got.as_ref().map(|g| hex(&g.0)).unwrap_or("end".into()),
+                        want.as_ref().map(|g| hex(&g.0)).unwrap_or("end".into())
+                    );
+                }
+                let Some(p) = pos else { break };
+                if step == 9 {
+                    break;
+                }
+                if self.rng.chance(1, 2) {
+                    prog.push_str(", next");
+                    pos = if p + 1 < exp.len() { Some(p + 1) } else { None };
+                    if let Err(e) = it.next() {
+                        viol!(self, "scan", "next failed after {}: {e}", prog);
+                    }
+                } else {
+                    prog.push_str(", prev");
+                    pos = p.checked_sub(1);
+                    if let Err(e) = it.prev() {
+                        viol!(self, "scan", "prev failed after {}: {e}", prog);
+                    }
+                }
+            }
+        }
         // one random bounded range
         if keys.len() >= 2 {
             let mut a = self.rng.pick(&keys).clone();
